@@ -136,7 +136,9 @@ class OwnedDatetime(_dt.datetime):
         if base is None:
             base = _dt.datetime(2030, 1, 1, 0, 0, 0, tzinfo=_dt.UTC)
         if tz is None:
-            return base.replace(tzinfo=None)
+            # naive *local* time; the owned local zone is UTC-5 so that code confusing local time
+            # with UTC is exposed
+            return (base - _dt.timedelta(hours=5)).replace(tzinfo=None)
         return base.astimezone(tz)
 
 
